@@ -112,6 +112,11 @@ def call_entry(ref, entry, la, le, kw, workdir, nl_a=True, nl_e=True, tag='x', a
                 ap = actual_path or os.path.join(workdir, 'act_%s.txt' % tag)
                 with open(ap, 'w', encoding='utf-8', newline='') as f:
                     f.write(text(la, nl_a))
+                if sum(map(ord, tag)) % 2 == 0:
+                    # both files carry the same modification time (as after unpacking an archive, cp -p, rsync -t): what the files
+                    # say is what counts, not what the directory says about them
+                    for p_ in (ap, rp):
+                        os.utime(p_, (1000000000, 1000000000))
                 if entry == 'file':
                     ref.assertTextFileCorrect(ap, rp, **kw)
                 else:
